@@ -6,7 +6,7 @@
 From Coq Require Import Reals List.
 From Coquelicot Require Import Complex.
 From SpdVerif Require Import Base.CfgNumOps Model.NumInst Spec.ConfigSpec Gen.ConfigTables Gen.ConfigSites Model.ConfigTypes Model.Config Model.NormSpectrum
-  Proofs.C20_idempotent Proofs.C20_spectrum Gen.CfgSteps Gen.C20_SpectrumSteps Proofs.CfgSteps_eq Proofs.C20_spectrum_steps_eq Model.Cfg_Composed Proofs.Cfg_composed.
+  Proofs.C20_idempotent Proofs.C20_spectrum Gen.CfgSteps Gen.C20_SpectrumSteps Proofs.CfgSteps_eq Proofs.C20_spectrum_steps_eq Model.Cfg_Composed Proofs.Cfg_composed Proofs.C20_sweep_spectrum.
 Import ListNotations.
 Local Open Scope R_scope.
 
@@ -147,6 +147,43 @@ Theorem C20_sweep : forall K minpos op oi jsa_raw norm_jsi freq base setups opt 
   Ok (map (fun v => v / jsi_of jsa_raw norm_jsi opt (fst (center freq opt)) (snd (center freq opt))) (jsi_values jsa_raw norm_jsi freq setups)).
 Proof. exact sweep_guarded. Qed.
 
+(* ---- the sweep and the spectrum object speak about the SAME quantities with the SAME reference (Proofs/C20_sweep_spectrum.v):
+   raw sweep values are the unnormalised coincidence intensity of each setup at its own centre ... *)
+Theorem C20_sweep_raw_is_jsi : forall (jsa_raw : spdc R -> R -> R -> C) (norm_jsi : spdc R -> R -> R -> R) freq setups,
+  jsi_values jsa_raw norm_jsi freq setups = map (fun s => jsi_of jsa_raw norm_jsi s (fst (center freq s)) (snd (center freq s))) setups.
+Proof. exact sweep_raw_is_jsi. Qed.
+
+(* ... a swept setup whose optimum is the base's optimum (the base itself; the optimum, by idempotence) gets from the sweep exactly
+   the value its own JointSpectrum reports at its centre ... *)
+Theorem C20_sweep_is_spectrum : forall K minpos op oi jsa_raw singles_raw norm_jsi norm_singles freq base s opt nf nf' j,
+  try_as_optimum R_ops K minpos op oi base = Ok (opt, nf) ->
+  try_as_optimum R_ops K minpos op oi s = Ok (opt, nf') ->
+  joint_spectrum_new K minpos op oi jsa_raw singles_raw norm_jsi norm_singles freq s = Ok j ->
+  0 <= norm_jsi opt (fst (center freq opt)) (snd (center freq opt)) ->
+  jsi_values_normalized K minpos op oi jsa_raw norm_jsi freq base [s] =
+  Ok [jsi_normalized jsa_raw norm_jsi j (fst (center freq s)) (snd (center freq s))].
+Proof. exact sweep_is_spectrum. Qed.
+
+(* ... the base's optimum sweeps to 1 (reference not 0) ... *)
+Theorem C20_sweep_unit_at_optimum : forall K minpos op oi jsa_raw norm_jsi freq base opt nf,
+  try_as_optimum R_ops K minpos op oi base = Ok (opt, nf) ->
+  jsi_of jsa_raw norm_jsi opt (fst (center freq opt)) (snd (center freq opt)) <> 0 ->
+  jsi_values_normalized K minpos op oi jsa_raw norm_jsi freq base [opt] = Ok [1].
+Proof. exact sweep_unit_at_optimum. Qed.
+
+(* ... and a sweep is pointwise: one value per setup, in order, independent of the neighbours and of the position in the sweep *)
+Theorem C20_sweep_pointwise : forall K minpos op oi jsa_raw norm_jsi freq base setups l,
+  jsi_values_normalized K minpos op oi jsa_raw norm_jsi freq base setups = Ok l ->
+  length l = length setups /\
+  forall k s, nth_error setups k = Some s ->
+    exists v, nth_error l k = Some v /\ jsi_values_normalized K minpos op oi jsa_raw norm_jsi freq base [s] = Ok [v].
+Proof. exact sweep_pointwise. Qed.
+
+(* non-vacuity of the sweep theorems: the example setup optimises, so it is a base whose optimum exists *)
+Example C20_ex_sweep_base : exists base opt nf,
+  try_as_optimum R_ops ex_K0 0 optimum_idler_sees_old_poling optimum_waist_sees_old_idler base = Ok (opt, nf).
+Proof. destruct (ex_optimises optimum_idler_sees_old_poling optimum_waist_sees_old_idler) as (s & s' & nf & _ & H). exists s, s', nf. exact H. Qed.
+
 (* =====================================================================================================================
    FULL STRENGTH for the code as it is now (try_as_optimum_now = the model with the flags the generator reads off the source;
    the proof of C20_idempotent_now contains the obligation optimum_waist_sees_old_idler = false): optimising is idempotent for
@@ -211,3 +248,7 @@ Print Assumptions C20_idler_singles_def.
 Print Assumptions C20_unit_at_centre.
 Print Assumptions C20_square.
 Print Assumptions C20_sweep.
+Print Assumptions C20_sweep_raw_is_jsi.
+Print Assumptions C20_sweep_is_spectrum.
+Print Assumptions C20_sweep_unit_at_optimum.
+Print Assumptions C20_sweep_pointwise.
